@@ -81,6 +81,8 @@ type Server struct {
 	leaderSub          *nats.Subscription
 	recoveryStarted    bool
 	latestRecoveredLog *raft.Log
+	restoreMu          sync.Mutex
+	restorePending     bool
 	mu                 sync.RWMutex
 	shutdown           bool
 	running            bool
@@ -219,6 +221,13 @@ func (s *Server) Start() (err error) {
 
 	if err := s.startAPIServer(); err != nil {
 		return errors.Wrap(err, "failed to start API server")
+	}
+
+	// Streams and consumer groups restored from a snapshot are started once
+	// the log entries behind the snapshot have been replayed. If there are
+	// none, nothing will be replayed, so start them now.
+	if err := s.finishRestoreIfNoReplay(raftNode); err != nil {
+		return errors.Wrap(err, "failed to recover from Raft snapshot")
 	}
 
 	s.startRaftLeadershipLoop(raftNode)
